@@ -18,6 +18,7 @@ structure RB (env : Env) (F a : Nat) (tk0 : Tok) (LF : Pos) (base acc0 : List Na
     hd.pos = LF ∧ ∀ t, hd.tok = some t → t = tk0
   am : ∀ x ∈ acc0, x ∈ rs.accepted
   sm : ∀ x ∈ sub0, x ∈ rs.sub
+  ns : ∀ (s h : Nat), (s, h) ∈ rs.sub → h ∈ base ∨ (env.g.nterms ≤ env.t.symAt s ∧ s ≠ 0)
 
 theorem registerActions_shifts_mono (head edge : Nat) (hc ec : Bool) : ∀ (acts : List Action)
     (acc : List Reduction × List (Nat × Nat) × List Nat), ∀ x ∈ acc.2.1, x ∈ (registerActions head edge hc ec acts acc).2.1
@@ -118,7 +119,7 @@ theorem findOrCreateEdge_ends {g : Gss} {hA u0 : Nat} {ed : Edge}
     exact ⟨rfl, rfl⟩
 
 /-- one `reducePath` keeps the book-keeping -/
-theorem reducePath_rb {env : Env} {F a : Nat} {tk0 : Tok} {LF : Pos} {base acc0 : List Nat} {sub0 : SubFrontier} {g0 : Gss}
+theorem reducePath_rb {env : Env} (hT : TableOk env) {F a : Nat} {tk0 : Tok} {LF : Pos} {base acc0 : List Nat} {sub0 : SubFrontier} {g0 : Gss}
     {rs rs' : RState}
     {p0 startHead : Nat}
     {sh : Head} {tk : Tok} {q : Path} (hI : RInv env F rs)
@@ -153,7 +154,7 @@ theorem reducePath_rb {env : Env} {F a : Nat} {tk0 : Tok} {LF : Pos} {base acc0 
       | one n0 sp l C0 h1 h2 _ _ h5 h6 h7 =>
         exact ⟨frame_setNode F hI.g hed (by rw [n2]; exact hhA) (by omega) h1 h2 h5 h6 h7, h5⟩
     refine ⟨hb.frame.trans hfr.1, ?_, ?_, ?_, ?_, fun x hx => by rw [hac']; exact hb.am x hx,
-      fun x hx => by rw [hsub']; exact hb.sm x hx⟩
+      fun x hx => by rw [hsub']; exact hb.sm x hx, fun s h hm => by rw [hsub'] at hm; exact hb.ns s h hm⟩
     · intro s u s' hs hact; rw [hsh']; rw [hsub'] at hs; exact hb.sc s u s' hs hact
     · intro s u hs hact; rw [hac']; rw [hsub'] at hs; exact hb.ac s u hs hact
     · intro i hd hi hiF
@@ -224,7 +225,7 @@ theorem reducePath_rb {env : Env} {F a : Nat} {tk0 : Tok} {LF : Pos} {base acc0 
     have hheads : rs'.gss.heads = g1.heads := by rw [hgs]; simp [hgh2]
     refine ⟨hb.frame.trans ((f12.trans f3).trans f4), ?_, ?_, ?_, ?_,
       fun x hx => by rw [hac']; exact registerActions_acc_mono _ _ _ _ _ _ _ (hb.am x hx),
-      fun x hx => by rw [hsub']; exact gr1.sub_old x (hb.sm x hx)⟩
+      fun x hx => by rw [hsub']; exact gr1.sub_old x (hb.sm x hx), ?_⟩
     · intro s u s' hs hact
       rw [hsub'] at hs
       rw [hsh']
@@ -298,10 +299,39 @@ theorem reducePath_rb {env : Env} {F a : Nat} {tk0 : Tok} {LF : Pos} {base acc0 
           simp only [↓reduceIte, Option.some.injEq] at hi
           rw [← hi]
           exact hb.tp startHead sh hsh hshF
+    · intro s u hs
+      rw [hsub'] at hs
+      rcases gr1.sub_new _ hs with hold | hnw
+      · exact hb.ns s u hold
+      · right
+        cases hcb : hc with
+        | false => rw [hcb] at hnw; simp at hnw
+        | true =>
+          rw [hcb] at hnw
+          simp only [↓reduceIte, Option.some.injEq] at hnw
+          obtain ⟨j1, j2, _, j4⟩ := hnew1 hcb
+          rw [j4] at hs
+          have hs1 : s = d.s' := by
+            rcases mem_sfInsert hs with k | k
+            · injection k
+            · exfalso
+              obtain ⟨x, hx, _⟩ := hI.sub _ _ k
+              have := lt_of_getElem?_some hx
+              omega
+          subst hs1
+          obtain ⟨hA', _⟩ := goto_spec hf.hgoto
+          have htrans : env.t.trans env.g d.hr.state d.pr.lhs d.s' := by
+            unfold Table.trans
+            have : ¬ d.pr.lhs < env.g.nterms := by omega
+            simp only [this, ↓reduceIte]; exact hf.hgoto
+          rw [hT.sym _ _ _ htrans]
+          refine ⟨hA', ?_⟩
+          intro h0
+          exact hT.s.no_into_start _ (main_auto_mem env) _ _ (by rw [h0] at htrans; exact htrans)
 
-theorem RB.extra (env : Env) (F a : Nat) (tk0 : Tok) (LF : Pos) (base acc0 : List Nat) (sub0 : SubFrontier) (g0 : Gss) :
+theorem RB.extra {env : Env} (hT : TableOk env) (F a : Nat) (tk0 : Tok) (LF : Pos) (base acc0 : List Nat) (sub0 : SubFrontier) (g0 : Gss) :
     Extra env F a (RB env F a tk0 LF base acc0 sub0 g0) :=
-  ⟨fun _ _ h => ⟨h.frame, h.sc, h.ac, h.li, h.tp, h.am, h.sm⟩,
-   fun _ _ _ _ _ _ _ hI hsh hshF htk hka hb h => reducePath_rb hI hsh hshF htk hka hb h⟩
+  ⟨fun _ _ h => ⟨h.frame, h.sc, h.ac, h.li, h.tp, h.am, h.sm, h.ns⟩,
+   fun _ _ _ _ _ _ _ hI hsh hshF htk hka hb h => reducePath_rb hT hI hsh hshF htk hka hb h⟩
 
 end Rustemo.Glr
